@@ -468,6 +468,9 @@ def run(chk):
     d7(chk, prog)
     chk.clause("D6", "the bins' names reach the read-count path whole: BED readers keep the 4th tab-separated field (C08 rule)")
     C08.d1_bed_names(chk, prog)
+    chk.clause("CLI", "the `coverage` command line: BAM / regions in their roles, -c, -q, -p, -f reach do_coverage as given")
+    from .. import cliglue
+    cliglue.check_coverage(chk, prog)
 
 
 MUTANTS = [
